@@ -540,6 +540,14 @@ class C05(Profile):
                 except MemoryError:       # (an injected allocation failure fires once; the caller tries again)
                     obj.reset_values(old)
                 return None
+            if op.get("via") == "assign":
+                # `sig.values = x`: the unchanged code ignores it without a word; a library that honours it has replaced the
+                # values by this route and is held to the same ownership rules (c05s-4)
+                before = obj.values
+                obj.values = self._res(world, op["src"])
+                if obj.values is not before:
+                    world.origin[op["p"]] = (self._src_kind(world, op["src"]), "values=", self._src_name(op["src"]))
+                return None
             r = obj.reset_values(self._res(world, op["src"]))
             world.origin[op["p"]] = (self._src_kind(world, op["src"]), "reset_values", self._src_name(op["src"]))
             return r
@@ -718,7 +726,7 @@ class C05(Profile):
         if not out.ok:
             agg_add(st["outcomes"], out.exc)
         self._coverage(world, op, out, kind)
-        if op["op"] == "reset" and out.ok:
+        if op["op"] == "reset" and out.ok and op.get("via") != "assign":
             # an explicit replacement of the values ends every claim the object had on arrays it handed out before
             for b, p in list(world.alias.items()):
                 if p == op["p"]:
@@ -992,7 +1000,7 @@ class C05(Profile):
                 return dict(base, invariant="I3:values-npts-time", cls=_cls_name(o), victim=name, victim_kind="object",
                             what="%s after %s: %s" % (name, kind, why))
         # I4: a construction / replacement takes the source's numbers
-        if op["op"] in ("new", "reset") and out.ok and not op.get("ood"):
+        if op["op"] in ("new", "reset") and out.ok and not op.get("ood") and op.get("via") != "assign":
             o = world.objs[op["p"]]
             src = capture(lambda: np.asarray(self._res(world, op["src"])))
             if src.ok and src.value.dtype.kind in "biuf":       # real records only (C05's quantifier); complex ones come from fas2signal
@@ -1404,6 +1412,8 @@ class Gen(object):
         src = self._src(world)
         if "vals" in src and src["vals"] == p and rng.random() < 0.5:
             return None
+        if rng.random() < 0.08:
+            return {"op": "reset", "p": p, "src": src, "via": "assign"}
         return {"op": "reset", "p": p, "src": src}
 
     def g_mut(self, world, inplace=False):
